@@ -410,7 +410,7 @@ func pickErr(hs *peer.HS) error {
 // this client resumes at this version in the plain configuration it must resume under the knob too.
 func c19VerificationKnobs() *explore.Scenario {
 	parrots := c19Parrots()
-	knobs := []string{"plain", "InsecureServerNameToVerify=*", "InsecureServerNameToVerify=*, a ServerName no certificate covers", "InsecureServerNameToVerify=<the name>", "InsecureServerNameToVerify=<the name>, another ServerName", "InsecureSkipTimeVerify", "InsecureSkipVerify"}
+	knobs := []string{"plain", "InsecureServerNameToVerify=*", "InsecureServerNameToVerify=*, a ServerName no certificate covers", "InsecureServerNameToVerify=<the name>", "InsecureServerNameToVerify=<the name>, another ServerName", "InsecureSkipTimeVerify", "InsecureSkipVerify", "ServerName written as an absolute name (trailing dot)"}
 	return &explore.Scenario{
 		Name: "two-connections-under-verification-knobs",
 		Run: func(x *explore.X) (r explore.Result) {
@@ -446,6 +446,9 @@ func c19VerificationKnobs() *explore.Scenario {
 					ccfg.InsecureSkipTimeVerify = true
 				case 6:
 					ccfg.InsecureSkipVerify = true
+				case 7:
+					// accepted by crypto/tls: the dot is dropped for SNI and for certificate verification
+					ccfg.ServerName = "a.example."
 				}
 				scfg := peer.ServerConfig()
 				if !offersCert(o, "ecdsa") {
@@ -499,7 +502,7 @@ func c19Scenarios(thorough bool) []*explore.Scenario {
 func init() {
 	register(&Prop{ID: "C19", Level: "model_checking", Variant: "A", Scenarios: c19Scenarios,
 		Run: func(c *explore.Check, thorough bool) {
-			c.Rule = "histories of 3 (4) connections sharing one ClientSessionCache and one server ticket key: the first two steps range over the full product of 7 clients (Chrome_100, Chrome_100_PSK, Chrome_112_PSK_Shuf, Firefox_120, Golang, custom TLS 1.2 with and without extended_master_secret) x server {TLS 1.2, TLS 1.3, TLS 1.3 answering with an HRR} x server name {a, b} x clock {+1 min, +8 days}; later steps repeat the previous step with <=2 deviations; every step handshakes, echoes (absorbing NewSessionTicket) and closes; plus all 2-connection histories (servers additionally: TLS 1.3 forced to TLS_CHACHA20_POLY1305_SHA256) with the second connection reached by {Handshake, BuildHandshakeState+Handshake, BuildHandshakeState+SetClientRandom+Handshake, BuildHandshakeState twice+Handshake, BuildHandshakeStateWithoutSession+Handshake, BuildHandshakeStateWithoutSession+BuildHandshakeState+Handshake, BuildHandshakeState+SetSNI(the other name)+Handshake (cross-name clause only)}. Oracle per step against a reference cache: must resume iff an unexpired session of the same parrot/name/version exists and the spec carries the needed extension (also through an HRR); DidResume agrees on both ends; pre_shared_key last and well-formed; no handshake failure at all; no ticket issued for one name offered to another; after a failed resumption attempt the history goes on and the session that failed is never offered again; 7 clients x {1.2, 1.3} x 6 verification knobs (InsecureServerNameToVerify * / * with a ServerName no certificate covers / the name / the name with another ServerName, InsecureSkipTimeVerify, InsecureSkipVerify): the second of two identical connections resumes whenever it does in the plain configuration. distinct = history"
+			c.Rule = "histories of 3 (4) connections sharing one ClientSessionCache and one server ticket key: the first two steps range over the full product of 7 clients (Chrome_100, Chrome_100_PSK, Chrome_112_PSK_Shuf, Firefox_120, Golang, custom TLS 1.2 with and without extended_master_secret) x server {TLS 1.2, TLS 1.3, TLS 1.3 answering with an HRR} x server name {a, b} x clock {+1 min, +8 days}; later steps repeat the previous step with <=2 deviations; every step handshakes, echoes (absorbing NewSessionTicket) and closes; plus all 2-connection histories (servers additionally: TLS 1.3 forced to TLS_CHACHA20_POLY1305_SHA256) with the second connection reached by {Handshake, BuildHandshakeState+Handshake, BuildHandshakeState+SetClientRandom+Handshake, BuildHandshakeState twice+Handshake, BuildHandshakeStateWithoutSession+Handshake, BuildHandshakeStateWithoutSession+BuildHandshakeState+Handshake, BuildHandshakeState+SetSNI(the other name)+Handshake (cross-name clause only)}. Oracle per step against a reference cache: must resume iff an unexpired session of the same parrot/name/version exists and the spec carries the needed extension (also through an HRR); DidResume agrees on both ends; pre_shared_key last and well-formed; no handshake failure at all; no ticket issued for one name offered to another; after a failed resumption attempt the history goes on and the session that failed is never offered again; 7 clients x {1.2, 1.3} x 7 Config variations (InsecureServerNameToVerify * / * with a ServerName no certificate covers / the name / the name with another ServerName, InsecureSkipTimeVerify, InsecureSkipVerify, ServerName with a trailing dot): the second of two identical connections resumes whenever it does in the plain configuration. distinct = history"
 			c.Assumptions = []string{"reference resumption table (mc/props/c19.go) written from the property statement; ticket lifetime 7 days", "OmitEmptyPsk is on for every client"}
 			runAll(c, c19Scenarios(thorough), 0)
 			c.Gate(c.Total.Counters["resumed"] > 500, "non-vacuity: %d resumed connections", c.Total.Counters["resumed"])
